@@ -241,11 +241,16 @@ def step_level(rep, rng, tier):
     # the configured gamma / u of the layer are what the documented z, w use: gamma = 0 (plain TDGL) and an unusual u too
     # two of the three devices carry a transport current, so that mu != 0 and the temporal link exp(-i mu dt) matters: it has to
     # be the one for the dt the step finally used, also after refusals within the step
-    for gam_, u_, nterm in ((10.0, 5.79, 2), (0.0, 5.79, 0), (3.0, 0.7, 2)):
+    for gam_, u_, nterm, td_eps in ((10.0, 5.79, 2, False), (0.0, 5.79, 0, False), (3.0, 0.7, 2, False), (10.0, 5.79, 2, True)):
         dev = meshes.make_device(rng, holes=0, terminals=nterm, max_edge_length=1.0, probe_points=False, gamma=gam_, u=u_)
 
-        def eps(r):
-            return -1.0 if r[0] < 0 else 1.0
+        if td_eps:
+            # a time-dependent disorder parameter (keyword-only t): the epsilon of the documented w is the one at THIS step's time
+            def eps(r, *, t):
+                return (-1.0 + 1.5 * min(t / 40.0, 1.0)) if r[0] < 0 else 1.0
+        else:
+            def eps(r):
+                return -1.0 if r[0] < 0 else 1.0
 
         for dt0 in ([50.0, 8.0] if tier == "quick" else [50.0, 8.0, 200.0, 3.0]):
             refused = []
@@ -257,7 +262,12 @@ def step_level(rep, rng, tier):
                 U = np.exp(-1j * mu * dt)
                 z = (g ** 2 / 2) * U * psi
                 lap = solver.operators.psi_laplacian @ psi
-                w = z * a2 + U * (psi + dt / u * np.sqrt(1 + g ** 2 * a2) * ((solver.epsilon - a2) * psi + lap))
+                if td_eps:
+                    eps_now = np.array([eps(r_, t=state["time"]) for r_ in solver.sites])     # evaluated here, at this step's time
+                    stats["td_epsilon_steps"] = stats.get("td_epsilon_steps", 0) + 1
+                else:
+                    eps_now = solver.epsilon
+                w = z * a2 + U * (psi + dt / u * np.sqrt(1 + g ** 2 * a2) * ((eps_now - a2) * psi + lap))
                 p = np.asarray(res.psi)
                 resid = np.abs(p + z * np.abs(p) ** 2 - w)
                 scale = np.abs(w) + np.abs(z) * np.abs(p) ** 2 + 1e-300
